@@ -1,8 +1,4 @@
-import DepsDev.Drive.Loop
+import DepsDev.Drive.Semver
 open DepsDev
 
-/-- Stub: replaced by the property's builder. -/
-def handleC03 : List String → String
-  | _ => "bad-op"
-
-def main : IO Unit := Drive.runDriver "C03" handleC03
+def main : IO Unit := Drive.runDriver "C03" Drive.Semver.handleOrBad
